@@ -43,26 +43,26 @@ impl Plan {
 pub fn plan(id: &str, tier: &str) -> Option<Plan> {
     let _t = tier == "thorough";
     match id {
-        "C01" => Some(Plan::new(if _t { 64 } else { 12 }, 1200)),
-        "C02" => Some(Plan::new(if _t { 48 } else { 12 }, 1200)),
-        "C03" => Some(Plan::new(if _t { 48 } else { 12 }, 900)),
-        "C14" => Some(Plan::new(if _t { 16 } else { 6 }, 900)),
-        "C13" => Some(Plan::new(if _t { 32 } else { 12 }, 1500)),
-        "C15" => Some(Plan::new(if _t { 32 } else { 12 }, 1500)),
-        "C06" => Some(Plan::new(if _t { 40 } else { 12 }, 1500)),
-        "C18" => Some(Plan::new(if _t { 40 } else { 12 }, 1500)),
-        "C19" => Some(Plan::new(if _t { 40 } else { 12 }, 1500)),
-        "C08" => Some(Plan::new(if _t { 48 } else { 12 }, 1500)),
-        "C07" => Some(Plan::new(if _t { 40 } else { 12 }, 1500)),
-        "C05" => Some(Plan::new(if _t { 40 } else { 12 }, 1500)),
-        "C10" => Some(Plan::new(if _t { 40 } else { 12 }, 1500)),
-        "C16" => Some(Plan::new(if _t { 36 } else { 12 }, 1800)),
-        "C17" => Some(Plan::new(if _t { 40 } else { 12 }, 1500)),
-        "C20" => Some(Plan::new(if _t { 16 } else { 16 }, 1500)),
+        "C01" => Some(Plan::new(if _t { 96 } else { 12 }, 1200)),
+        "C02" => Some(Plan::new(if _t { 160 } else { 12 }, 1200)),
+        "C03" => Some(Plan::new(if _t { 64 } else { 12 }, 900)),
+        "C14" => Some(Plan::new(if _t { 64 } else { 6 }, 900)),
+        "C13" => Some(Plan::new(if _t { 48 } else { 12 }, 1500)),
+        "C15" => Some(Plan::new(if _t { 96 } else { 12 }, 1500)),
+        "C06" => Some(Plan::new(if _t { 320 } else { 12 }, 1500)),
+        "C18" => Some(Plan::new(if _t { 320 } else { 12 }, 1500)),
+        "C19" => Some(Plan::new(if _t { 240 } else { 12 }, 1500)),
+        "C08" => Some(Plan::new(if _t { 240 } else { 12 }, 1500)),
+        "C07" => Some(Plan::new(if _t { 240 } else { 12 }, 1500)),
+        "C05" => Some(Plan::new(if _t { 120 } else { 12 }, 1500)),
+        "C10" => Some(Plan::new(if _t { 160 } else { 12 }, 1500)),
+        "C16" => Some(Plan::new(if _t { 288 } else { 12 }, 1800)),
+        "C17" => Some(Plan::new(if _t { 320 } else { 12 }, 1500)),
+        "C20" => Some(Plan::new(if _t { 32 } else { 16 }, 1500)),
         "C12" => Some(Plan::new(c12::shards(), 1500)),
         "C09" => Some(Plan::new(if _t { 64 } else { 16 }, 1500)),
         "C04" => Some(Plan::new(if _t { 28 } else { 14 }, 2400)),
-        "C11" => Some(Plan::new(if _t { 8 } else { 4 }, 900)),
+        "C11" => Some(Plan::new(if _t { 16 } else { 4 }, 900)),
         _ => None,
     }
 }
